@@ -187,11 +187,11 @@ func (p *Program) structuralFunc(pkgPath, name string) *ssa.Function {
 		return nil
 	}
 	bySig := map[string]string{
-		"webdav|checkConditionalMatches":  "(*webdav.FileInfo, webdav.ConditionalMatch, webdav.ConditionalMatch) (error)",
-		"webdav|fileInfoFromOS":           "(string, io/fs.FileInfo) (*webdav.FileInfo)",
-		"webdav|fileInfoFromResponse":     "(*internal.Response) (*webdav.FileInfo, error)",
-		"carddav|filterProperties":        "(carddav.AddressDataRequest, carddav.AddressObject) (carddav.AddressObject)",
-		"carddav|encodeAddressPropReq":    "(*carddav.AddressDataRequest) (*internal.Prop, error)",
+		"webdav|checkConditionalMatches": "(*webdav.FileInfo, webdav.ConditionalMatch, webdav.ConditionalMatch) (error)",
+		"webdav|fileInfoFromOS":          "(string, io/fs.FileInfo) (*webdav.FileInfo)",
+		"webdav|fileInfoFromResponse":    "(*internal.Response) (*webdav.FileInfo, error)",
+		"carddav|filterProperties":       "(carddav.AddressDataRequest, carddav.AddressObject) (carddav.AddressObject)",
+		"carddav|encodeAddressPropReq":   "(*carddav.AddressDataRequest) (*internal.Prop, error)",
 	}
 	short := "webdav"
 	if pkgPath != modulePath {
@@ -204,4 +204,76 @@ func (p *Program) structuralFunc(pkgPath, name string) *ssa.Function {
 	return p.uniqueFunc(pkgPath, func(fn *ssa.Function) bool {
 		return fn.Signature.Recv() == nil && fn.Object() != nil && !fn.Object().Exported() && sigString(fn.Signature) == want
 	})
+}
+
+// forwardedPrimitive: fn is a forwarding wrapper of the module around one
+// file-system primitive (its body is a single call of a function of os,
+// io/ioutil or path/filepath with its own parameters as arguments): the name
+// of that primitive, else "".
+func forwardedPrimitive(p *Program, fn *ssa.Function) string {
+	if fn == nil || !p.InModule(fn) || len(fn.Blocks) != 1 {
+		return ""
+	}
+	var inner *ssa.CallCommon
+	n := 0
+	eachCall(fn, func(site ssa.CallInstruction) {
+		n++
+		inner = site.Common()
+	})
+	if n != 1 || inner == nil {
+		return ""
+	}
+	callee := inner.StaticCallee()
+	if callee == nil || callee.Pkg == nil {
+		return ""
+	}
+	switch callee.Pkg.Pkg.Path() {
+	case "os", "io/ioutil", "path/filepath":
+	default:
+		return ""
+	}
+	for _, a := range inner.Args {
+		if _, isParam := a.(*ssa.Parameter); !isParam {
+			if _, isConst := a.(*ssa.Const); !isConst {
+				return ""
+			}
+		}
+	}
+	return fullFnName(callee)
+}
+
+// fsPrimitiveName: the file-system primitive a call site calls, directly or
+// through a forwarding wrapper (a static callee, or every implementation in
+// the module of the interface method invoked).
+func fsPrimitiveName(p *Program, cc *ssa.CallCommon) string {
+	if !cc.IsInvoke() {
+		if f := cc.StaticCallee(); f != nil {
+			if w := forwardedPrimitive(p, f); w != "" {
+				return w
+			}
+		}
+		return calleeName(cc)
+	}
+	it, ok := cc.Value.Type().Underlying().(*types.Interface)
+	if !ok {
+		return calleeName(cc)
+	}
+	found := ""
+	for _, fn := range p.ModFns {
+		if fn.Name() != cc.Method.Name() || fn.Signature.Recv() == nil || fn.Synthetic != "" {
+			continue
+		}
+		if !types.Implements(fn.Signature.Recv().Type(), it) {
+			continue
+		}
+		w := forwardedPrimitive(p, fn)
+		if w == "" || (found != "" && found != w) {
+			return calleeName(cc)
+		}
+		found = w
+	}
+	if found != "" {
+		return found
+	}
+	return calleeName(cc)
 }
